@@ -1405,6 +1405,10 @@ static int read_task_watch_event(struct uftrace_task_reader *task,
 
 	*plen = len;
 
+	/* the address and at most 8 bytes of data */
+	if (len < (data_is_lp64(task->h) ? 8 : 4) || len > sizeof(watch->var))
+		return -1;
+
 	if (data_is_lp64(task->h)) {
 		if (fread(&watch->var.addr, 8, 1, task->fp) != 1)
 			return -1;
